@@ -81,6 +81,19 @@ pub fn programs11() -> Vec<Prog> {
     p.items.push(Item::Break);
     p.push(Some("done"), Stmt::Rets);
     v.push(Prog::new("return-onto-breakpoint", p, true));
+    // two .break with nothing but unlabelled data between them (the data is executed as NOPs)
+    let mut p = Program::default();
+    p.push(Some("first"), Stmt::And(0, 0, Src2::Imm(Lit::dec(0))));
+    p.items.push(Item::Break);
+    p.push(None, Stmt::Blkw(Lit::dec(2)));
+    p.items.push(Item::Break);
+    p.push(Some("loop"), Stmt::Add(0, 0, Src2::Imm(Lit::dec(1))));
+    p.items.push(Item::Break);
+    p.push(None, Stmt::Fill(Lit::hex(0x0000)));
+    p.push(None, Stmt::Stringz("".into()));
+    p.items.push(Item::Break);
+    p.push(Some("end"), Stmt::Named(0x25, "halt"));
+    v.push(Prog::new("breaks-around-data", p, true));
     v
 }
 
